@@ -91,6 +91,7 @@ type Exec struct {
 	curBlk   int
 	rowDefs  map[string]string
 	heapAlc  map[string]string
+	offBase  map[string][2]string
 	anc      map[int]map[int]bool
 	obls     []*Obl
 	n        int
@@ -241,12 +242,20 @@ func (x *Exec) setHeap(st *State, name, sort, term string) {
 	x.declare(v, sort)
 	x.emit(fmt.Sprintf("(assert (= %s %s))", v, term))
 	st.heap[name] = v
-	if st.alc != "" {
-		if x.heapAlc == nil {
-			x.heapAlc = map[string]string{}
-		}
-		x.heapAlc[v] = st.alc
+}
+
+// noteStoreAlc records, after a program store into heap `name`, that every reference held by the new version
+// existed when the store was executed (the stored value exists now, the rest comes from the previous version).
+// Only program stores are recorded: versions installed by callee contracts, havoc or state merges may hold
+// objects allocated by the callee and fall back to the allocation counter at load time.
+func (x *Exec) noteStoreAlc(st *State, name string) {
+	if st.alc == "" {
+		return
 	}
+	if x.heapAlc == nil {
+		x.heapAlc = map[string]string{}
+	}
+	x.heapAlc[st.heap[name]] = st.alc
 }
 
 // allocBound: an upper bound for every reference stored in the current version of a heap: the allocation
@@ -355,9 +364,11 @@ func (x *Exec) writeComp(st *State, loc *Loc, c comp, v string) {
 	case LField, LCell:
 		h := x.heap(st, name, arrSort(c.sort))
 		x.setHeap(st, name, arrSort(c.sort), sx("store", h, loc.Ref, v))
+		x.noteStoreAlc(st, name)
 	case LElem:
 		h := x.heap(st, name, arr2Sort(c.sort))
 		x.setHeap(st, name, arr2Sort(c.sort), sx("store", h, loc.Arr, sx("store", sx("select", h, loc.Arr), loc.Idx, v)))
+		x.noteStoreAlc(st, name)
 	}
 }
 
@@ -373,9 +384,41 @@ func (x *Exec) structAddr(loc *Loc) string {
 	case LElem:
 		fn := "eaddr$" + strings.TrimPrefix(loc.Base, "E$")
 		x.declEaddr(fn)
+		if loc.Off != "" {
+			// element of a slice: pattern-friendly form selem(arr, off, k) = eaddr(arr, off + k)
+			return sx(x.selemFn(fn), loc.Arr, loc.Off, loc.Rel)
+		}
 		return sx(fn, loc.Arr, loc.Idx)
 	}
 	panic("bad loc")
+}
+
+// offBaseOf: (base, rel) such that off = base + rel, where base is the offset of the slice the value was cut from
+func (x *Exec) offBaseOf(off string) (string, string) {
+	if b, ok := x.offBase[off]; ok {
+		return b[0], b[1]
+	}
+	return off, "0"
+}
+
+func (x *Exec) setOffBase(off, base, rel string) {
+	if off == base {
+		return
+	}
+	if x.offBase == nil {
+		x.offBase = map[string][2]string{}
+	}
+	x.offBase[off] = [2]string{base, rel}
+}
+
+// selemFn: address of the k-th element of a slice with backing array arr and offset off (struct elements)
+func (x *Exec) selemFn(ea string) string {
+	name := "s" + ea
+	if !x.declared[name] {
+		x.declareFun(name, "(Int Int Int) Int")
+		x.emitGlobal(fmt.Sprintf("(assert (forall ((a Int) (o Int) (k Int)) (! (= (%s a o k) (%s a (+ o k))) :pattern ((%s a o k)))))", name, ea, name))
+	}
+	return name
 }
 
 func (x *Exec) declSub(fn string) {
@@ -1202,6 +1245,10 @@ func (x *Exec) instr(fr *Frame, b *ssa.BasicBlock, st *State, reach string, ins 
 			x.oblige(x.oblName(fr, "nopanic", i.Pos(), "index"), "nopanic", reach, sx("and", sx("<=", "0", idx), sx("<", idx, xv.Len)), nil, x.posText(i.Pos())+": index in range")
 			loc := &Loc{Kind: LElem, Base: "E$" + typeKey(et), Arr: xv.Arr, Idx: x.define("ix", "Int", sx("+", xv.Off, idx)), Off: xv.Off, Rel: idx}
 			if kindOf(et) == KStruct {
+				if pb, pr := x.offBaseOf(xv.Off); pr != "0" {
+					// address relative to the slice this one was cut from (keeps one syntactic base per array)
+					loc = &Loc{Kind: LElem, Base: loc.Base, Arr: xv.Arr, Idx: loc.Idx, Off: pb, Rel: x.define("rix", "Int", sx("+", pr, idx))}
+				}
 				x.set(fr, i, Sc{T: x.structAddr(loc), S: "Int"})
 			} else {
 				x.declEptr()
@@ -1847,7 +1894,17 @@ func (x *Exec) sliceInstr(fr *Frame, st *State, reach string, i *ssa.Slice) {
 			mx := x.value(fr, i.Max).(Sc).T
 			ncap = sx("-", mx, lo)
 		}
-		x.set(fr, i, x.nameVal(fr.tag+i.Name(), SliceV{xv.Arr, sx("+", xv.Off, lo), sx("-", hi, lo), ncap}))
+		nsv := x.nameVal(fr.tag+i.Name(), SliceV{xv.Arr, sx("+", xv.Off, lo), sx("-", hi, lo), ncap}).(SliceV)
+		// provenance of the offset: base offset of the slice this one was cut from + logical shift
+		pb, pr := x.offBaseOf(xv.Off)
+		if lo == "0" {
+			x.setOffBase(nsv.Off, pb, pr)
+		} else if pr == "0" {
+			x.setOffBase(nsv.Off, pb, lo)
+		} else {
+			x.setOffBase(nsv.Off, pb, x.define("rel", "Int", sx("+", pr, lo)))
+		}
+		x.set(fr, i, nsv)
 	case Sc:
 		if xv.S == "Str" {
 			x.warn("string slicing: havoc")
